@@ -45,6 +45,9 @@ def check(rep, tier):
         cfg = fr.gen_config(rng, max_vials=16, max_steps=rng.choice([3, 8, 40, 300]))
         N = int(np.prod(cfg["shape"]))
         store = rng.choice(["all", "all", [0], "uniform_2", "corner", None])
+        Nv_ = cfg["shape"][0] * cfg["shape"][1] * cfg["shape"][2]
+        if ri % 5 == 1 and Nv_ >= 3:
+            store = [(Nv_ - 1, 0), [Nv_ - 1, Nv_ // 2, 0], (1, 0, Nv_ - 1, 1)][(ri // 5) % 3]       # integer requests that are not in ascending order
         try:
             r = fr.run(cfg, storeStates=store)
             S = r["S"]
